@@ -262,67 +262,15 @@ fn run_corr(args: &Args, search: bool) -> Report {
 }
 
 // ---------------------------------------------------------------- the Standard as reference
-/// text of the input as the parser sees it: C0/space trimmed, tab/LF/CR removed
-fn cleaned(input: &str) -> Vec<char> {
-    input.trim_matches(|c: char| c <= ' ').chars().filter(|c| !matches!(c, '\t' | '\n' | '\r')).collect()
-}
-fn leading_scheme(t: &[char]) -> Option<String> {
-    if t.first().map_or(false, |c| c.is_ascii_alphabetic()) {
-        let mut s = String::new();
-        for &c in t {
-            if c.is_ascii_alphanumeric() || c == '+' || c == '-' || c == '.' {
-                s.push(c.to_ascii_lowercase());
-            } else if c == ':' {
-                return Some(s);
-            } else {
-                return None;
-            }
-        }
-    }
-    None
-}
-fn is_special_scheme(s: &str) -> bool {
-    matches!(s, "http" | "https" | "ws" | "wss" | "ftp" | "file")
-}
-fn has_drive_segment(t: &[char]) -> bool {
-    let is_end = |c: char| matches!(c, '/' | '\\' | '?' | '#');
-    (0..t.len()).any(|i| {
-        t[i].is_ascii_alphabetic()
-            && i + 1 < t.len()
-            && (t[i + 1] == ':' || t[i + 1] == '|')
-            && (i == 0 || is_end(t[i - 1]))
-            && (i + 2 == t.len() || is_end(t[i + 2]))
-    })
-}
-
 /// Known_C01: classes of (base, input) on which the pinned code is known to deviate from the Standard
-/// (DESIGN.md section 9); deliberately broad, by mechanism.  None = not known.
+/// (DESIGN.md section 9) - the exact exclusions of the proved class theorems; the predicate itself is
+/// harness/src/known01.rs (twin of Model/KnownC01.v).  None = not known.
 fn known_c01(base: Option<&Url>, input: &str) -> Option<&'static str> {
-    let t = cleaned(input);
-    let sch = leading_scheme(&t);
-    let eff = sch.clone().or_else(|| base.map(|b| b.scheme().to_string()));
-    let eff = eff.as_deref().unwrap_or("");
-    if eff == "file" || base.map_or(false, |b| b.scheme() == "file") && sch.is_none() {
-        return Some("K1-file-scheme");
+    let kb = base.map(|b| known01::KBase { scheme: b.scheme(), cannot_be_a_base: b.cannot_be_a_base(), path: b.path() });
+    match known01::known_c01(kb.as_ref(), input) {
+        0 => None,
+        k => Some(known01::class_name(k)),
     }
-    let base_path: Vec<char> = base.map(|b| b.path().chars().collect()).unwrap_or_default();
-    let rest: &[char] = match &sch {
-        Some(_) => {
-            let p = t.iter().position(|&c| c == ':').map(|p| p + 1).unwrap_or(0);
-            &t[p..]
-        }
-        None => &t[..],
-    };
-    if has_drive_segment(rest) || has_drive_segment(&base_path) {
-        return Some("K2-drive-letter-shaped-segment");
-    }
-    if !is_special_scheme(eff) && t.contains(&'\\') {
-        return Some("K3-backslash-in-non-special");
-    }
-    if t.windows(2).any(|w| w == [':', '@']) {
-        return Some("K4-colon-at");
-    }
-    None
 }
 
 fn spec_vs_impl(cx: &mut Ctx, stream: &str, base: Option<(&str, &Url)>, input: &str) {
@@ -356,10 +304,20 @@ fn spec_vs_impl(cx: &mut Ctx, stream: &str, base: Option<(&str, &Url)>, input: &
         cx.rep.case("known-predicate", &kreq, &km, ki, true, "known01");
     }
     if spec == imp {
+        // exactness of the classes: an input inside Known_C01 on which the sides agree
+        if let Some(k) = known_c01(base.map(|b| b.1), input) {
+            cx.rep.bump(&format!("known-but-agreeing:{}", k));
+            if !k.starts_with("K1") && std::env::var("VERIF_C01_SHOW_AGREE").is_ok() {
+                eprintln!("AGREE {} {}", k, human);
+            }
+        }
         cx.rep.case(stream, &human, &spec, &imp, !input.is_empty(), if spec == "fail" { "std:fail" } else { "std:ok" });
     } else if let Some(k) = known_c01(base.map(|b| b.1), input) {
         cx.rep.evaluations += 1;
         cx.rep.bump(&format!("known-divergence:{}", k));
+        if k.starts_with("K1") && std::env::var("VERIF_C01_SHOW_K1").is_ok() {
+            eprintln!("K1DIV input={:?} base={:?}\n   std=<{}>\n   imp=<{}>", input, base.map(|b| b.0), spec, imp);
+        }
     } else {
         cx.rep.case(stream, &human, &spec, &imp, true, "std:DIVERGES");
         if cx.search && cx.rep.failures.len() < 20 {
@@ -398,6 +356,47 @@ fn run_standard(cx: &mut Ctx, args: &Args) {
         let s = if i % 3 == 0 { mutate_string(&mut rng, &s) } else { s };
         let bi = if rng.chance(1, 2) { None } else { Some(rng.below(bases.len())) };
         spec_vs_impl(cx, "std-differential", bi.map(|b| (pool[b], &bases[b])), &s);
+    }
+    // directed at the borders of Known_C01 (deterministic): every sequence of <= 3 (quick) / 4 (thorough)
+    // tokens - drive-letter shapes, dot segments in several spellings, ':@', ports, backslashes - behind
+    // authority / path prefixes, without base and against bases with drive-letter-shaped segments
+    {
+        let toks = ["/", "\\", "C:", "c|", "..", "%2E.", ".", "x", ":@", ":8", "@", "?", "#"];
+        let pres = ["", "a:", "a:/", "a://", "a://h", "a://h:8", "http:", "http://h", "http:/", "a://:@", "a:/C:/"];
+        let dbases = ["a://h/C:/d/e", "a:/C|/", "a:/x/C:", "http://h/C:/d/e", "http://h/c|/", "a://h"];
+        let dparsed: Vec<Url> = dbases.iter().map(|s| Url::parse(s).expect("directed base")).collect();
+        let depth = if args.tier == "thorough" { 4 } else { 3 };
+        let mut seqs: Vec<String> = vec![String::new()];
+        let mut level: Vec<String> = vec![String::new()];
+        for _ in 0..depth {
+            let mut next = vec![];
+            for s in &level {
+                for t in toks.iter() {
+                    next.push(format!("{}{}", s, t));
+                }
+            }
+            seqs.extend(next.iter().cloned());
+            level = next;
+        }
+        for (pi, pre) in pres.iter().enumerate() {
+            for (si, s) in seqs.iter().enumerate() {
+                let input = format!("{}{}", pre, s);
+                // without base for inputs with a scheme; the bases in turn for all
+                if pi > 0 {
+                    spec_vs_impl(cx, "std-directed", None, &input);
+                }
+                let bi = (pi + si) % dparsed.len();
+                spec_vs_impl(cx, "std-directed", Some((dbases[bi], &dparsed[bi])), &input);
+            }
+        }
+    }
+    // bare references (empty, '?...', '#...') against every file base of the pool: outside class 1
+    for (bi, b) in pool.iter().enumerate() {
+        if b.starts_with("file:") {
+            for r in ["", " ", "#", "#f", "?", "?q", "?q#f", "\t#x", "?%", "#\\", "?\\..", "#/C|/..", "? #\u{e9}"] {
+                spec_vs_impl(cx, "std-directed", Some((*b, &bases[bi])), r);
+            }
+        }
     }
     let k = if args.tier == "thorough" { 3 } else { 2 };
     for b in [None, Some(0usize), Some(9), Some(11)] {
